@@ -105,3 +105,101 @@ Qed.
 Theorem never_written_journal_is_clear s0 s1 total : all_zero s0 = true -> all_zero s1 = true ->
   decode_journal s0 s1 total = Some (0, 1, []).
 Proof. intros H0 H1. unfold decode_journal. rewrite H0, H1. reflexivity. Qed.
+
+(* ---- the journal slot of a quiescent file: the CLEAR record encode_clear writes, whatever the
+   rest of the slot still holds from earlier, longer records ---- *)
+Theorem clear_journal_slot_roundtrip g rest total :
+  0 < g -> g < 2 ^ 64 ->
+  decode_slot (encode_journal g JOURNAL_CLEAR [] ++ rest) total = Some (g, []).
+Proof.
+  intros G0 G1. unfold encode_journal. cbn [length encode_entries].
+  assert (SZ : N.to_nat (journal_image_size (N.of_nat 0)) = 4096%nat) by (vm_compute; reflexivity).
+  rewrite SZ.
+  set (raw := JOURNAL_MAGIC ++ le_bytes 4 JOURNAL_VERSION ++ zeros 4 ++ le_bytes 8 g ++ le_bytes 4 JOURNAL_CLEAR ++
+              le_bytes 4 (N.of_nat 0) ++ zeros 8 ++ []).
+  assert (RL : length raw = 40%nat) by (unfold raw; rewrite !app_length, !le_bytes_length; reflexivity).
+  rewrite RL. set (pad := zeros (4096 - 40)).
+  assert (PL : length pad = 4056%nat) by (unfold pad, zeros; rewrite repeat_length; reflexivity).
+  set (img := raw ++ pad).
+  set (c := journal_checksum img).
+  assert (Cl : c < 2 ^ 32) by (unfold c, journal_checksum; apply crc32c_lt; lia).
+  assert (Xl : N.lxor c MASK32 < 2 ^ 32) by (apply lxor_lt; [exact Cl|unfold MASK32; lia]).
+  (* the image with its first 40 bytes spelled out *)
+  assert (IMG : exists b0 b1 b2 b3 b4 b5 b6 b7 b8 b9 b10 b11 b12 b13 b14 b15 t16 t36,
+             img = b0 :: b1 :: b2 :: b3 :: b4 :: b5 :: b6 :: b7 :: b8 :: b9 :: b10 :: b11 :: b12 :: b13 :: b14 :: b15 :: t16 ++ (0 :: 0 :: 0 :: 0 :: t36) /\
+             length t16 = 16%nat /\
+             splice (splice img 12 (le_bytes 4 c)) 32 (le_bytes 4 (N.lxor c MASK32)) =
+             b0 :: b1 :: b2 :: b3 :: b4 :: b5 :: b6 :: b7 :: b8 :: b9 :: b10 :: b11 :: le_bytes 4 c ++ t16 ++ le_bytes 4 (N.lxor c MASK32) ++ t36 /\
+             skipn 36 img = t36 /\ sub img 16 16 = t16 /\
+             [b0; b1; b2; b3; b4; b5; b6; b7] = JOURNAL_MAGIC /\
+             le_num [b8; b9; b10; b11] = JOURNAL_VERSION /\
+             le_num (firstn 8 t16) = g /\ le_num (firstn 4 (skipn 8 t16)) = JOURNAL_CLEAR /\ le_num (firstn 4 (skipn 12 t16)) = 0).
+  { unfold img, raw. cbn [JOURNAL_MAGIC le_bytes zeros repeat app N.of_nat].
+    do 16 eexists. exists [g mod 256; (g / 256) mod 256; (g / 256 / 256) mod 256; (g / 256 / 256 / 256) mod 256;
+                          (g / 256 / 256 / 256 / 256) mod 256; (g / 256 / 256 / 256 / 256 / 256) mod 256;
+                          (g / 256 / 256 / 256 / 256 / 256 / 256) mod 256; (g / 256 / 256 / 256 / 256 / 256 / 256 / 256) mod 256;
+                          JOURNAL_CLEAR mod 256; (JOURNAL_CLEAR / 256) mod 256; (JOURNAL_CLEAR / 256 / 256) mod 256; (JOURNAL_CLEAR / 256 / 256 / 256) mod 256;
+                          0 mod 256; (0 / 256) mod 256; (0 / 256 / 256) mod 256; (0 / 256 / 256 / 256) mod 256].
+    exists (0 :: 0 :: 0 :: 0 :: pad).
+    split; [reflexivity|]. split; [reflexivity|]. split; [reflexivity|]. split; [reflexivity|]. split; [reflexivity|].
+    split; [reflexivity|]. split; [vm_compute; reflexivity|]. split; [cbn [firstn]; apply le8; exact G1|]. split; vm_compute; reflexivity. }
+  destruct IMG as (b0 & b1 & b2 & b3 & b4 & b5 & b6 & b7 & b8 & b9 & b10 & b11 & b12 & b13 & b14 & b15 & t16 & t36 &
+                   EI & L16 & ES & E36 & E16 & EM & EV & EG & EST & ECN).
+  rewrite ES. clear ES.
+  set (d := (b0 :: b1 :: b2 :: b3 :: b4 :: b5 :: b6 :: b7 :: b8 :: b9 :: b10 :: b11 :: le_bytes 4 c ++ t16 ++ le_bytes 4 (N.lxor c MASK32) ++ t36) ++ rest).
+  do 16 (destruct t16 as [|? t16]; [discriminate|]). destruct t16; [|discriminate].
+  cbn [firstn skipn] in EG, EST, ECN.
+  assert (D0 : sub d 0 8 = JOURNAL_MAGIC) by (rewrite <- EM; reflexivity).
+  assert (D8 : u32_at d 8 = JOURNAL_VERSION) by (rewrite <- EV; reflexivity).
+  assert (D12 : u32_at d 12 = c) by (unfold u32_at, d, sub; cbn [le_bytes app skipn firstn]; apply le4; exact Cl).
+  assert (D16 : u64_at d 16 = g) by (rewrite <- EG; reflexivity).
+  assert (D24 : u32_at d 24 = JOURNAL_CLEAR) by (rewrite <- EST; reflexivity).
+  assert (D28 : u32_at d 28 = 0) by (rewrite <- ECN; reflexivity).
+  assert (D32 : u32_at d 32 = N.lxor c MASK32) by (unfold u32_at, d, sub; cbn [le_bytes app skipn firstn]; apply le4; exact Xl).
+  unfold decode_slot. rewrite D0, list_eqb_refl. cbn [negb]. rewrite D8.
+  replace ((JOURNAL_VERSION =? FULL_SLOT_CHECKSUM_VERSION) || (JOURNAL_VERSION =? JOURNAL_VERSION)) with true by reflexivity.
+  cbn [negb]. rewrite D16, D24, D28.
+  destruct (N.eqb_spec g 0); [lia|].
+  replace ((false || (ALLOCATION_JOURNAL_MAX_ENTRIES <? 0) || negb ((JOURNAL_CLEAR =? JOURNAL_CLEAR) || (JOURNAL_CLEAR =? JOURNAL_ACTIVE)) ||
+            (JOURNAL_CLEAR =? JOURNAL_CLEAR) && negb (0 =? 0) || (JOURNAL_CLEAR =? JOURNAL_ACTIVE) && (0 =? 0))) with false by reflexivity.
+  replace (JOURNAL_VERSION =? FULL_SLOT_CHECKSUM_VERSION) with false by reflexivity.
+  replace (N.to_nat (journal_image_size 0)) with 4096%nat by (vm_compute; reflexivity).
+  rewrite D12, D32, N.eqb_refl.
+  assert (CK : journal_checksum (firstn 4096 d) = c).
+  { assert (F : firstn 4096 d = b0 :: b1 :: b2 :: b3 :: b4 :: b5 :: b6 :: b7 :: b8 :: b9 :: b10 :: b11 :: le_bytes 4 c ++
+                                 (n :: n0 :: n1 :: n2 :: n3 :: n4 :: n5 :: n6 :: n7 :: n8 :: n9 :: n10 :: n11 :: n12 :: n13 :: n14 :: []) ++
+                                 le_bytes 4 (N.lxor c MASK32) ++ t36).
+    { unfold d. apply firstn_app_exact. cbn [length app le_bytes]. rewrite <- E36. rewrite skipn_length.
+      unfold img. rewrite app_length, RL, PL. reflexivity. }
+    rewrite F. unfold c, journal_checksum. f_equal.
+    rewrite EI. unfold sub. cbn [le_bytes app skipn firstn]. rewrite <- E36. rewrite EI. cbn [skipn]. reflexivity. }
+  rewrite CK, N.eqb_refl. cbn [andb negb].
+  replace (N.to_nat 0) with 0%nat by reflexivity. cbn [decode_entries sort_by_start fold_right no_overlap_sorted]. reflexivity.
+Qed.
+
+Lemma encode_journal_not_zero g st exts rest : all_zero (encode_journal g st exts ++ rest) = false.
+Proof.
+  unfold encode_journal.
+  set (img := (JOURNAL_MAGIC ++ _) ++ _). set (c := journal_checksum img).
+  assert (E : exists t, img = 0 :: 70 :: t) by (unfold img; cbn [JOURNAL_MAGIC app]; eexists; reflexivity).
+  destruct E as (t & ->). destruct t as [|a1 [|a2 [|a3 [|a4 [|a5 [|a6 [|a7 [|a8 [|a9 [|a10 t]]]]]]]]]]; reflexivity.
+Qed.
+
+(* one slot holds a CLEAR record of generation g, the other has never been written, or holds an
+   older CLEAR record: the journal decodes to "clear" *)
+Theorem journal_with_clear_records_decodes_clear g rest0 s1 total :
+  0 < g -> g < 2 ^ 64 -> all_zero s1 = true ->
+  decode_journal (encode_journal g JOURNAL_CLEAR [] ++ rest0) s1 total = Some (g, 0, []).
+Proof.
+  intros G0 G1 Z. unfold decode_journal. rewrite encode_journal_not_zero, Z.
+  rewrite clear_journal_slot_roundtrip by assumption. reflexivity.
+Qed.
+
+Theorem journal_with_two_clear_records_decodes_clear g0 g1 rest0 rest1 total :
+  0 < g0 -> g0 < 2 ^ 64 -> 0 < g1 -> g1 < 2 ^ 64 ->
+  exists g slot, decode_journal (encode_journal g0 JOURNAL_CLEAR [] ++ rest0) (encode_journal g1 JOURNAL_CLEAR [] ++ rest1) total
+                 = Some (g, slot, []).
+Proof.
+  intros A0 A1 B0 B1. unfold decode_journal. rewrite !encode_journal_not_zero.
+  rewrite !clear_journal_slot_roundtrip by assumption. destruct (g1 <? g0); eexists; eexists; reflexivity.
+Qed.
